@@ -612,6 +612,7 @@ fn entry_text(module: &ir::Module) -> Option<(String, usize)> {
         let sig = reg.get_function_signature(*id);
         let mut pre = String::new();
         let mut post = String::new();
+        let mut own_statics = String::new();
         let mut args = Vec::new();
         let mut ok = true;
         for (i, p) in imp.params.iter().enumerate() {
@@ -624,7 +625,7 @@ fn entry_text(module: &ir::Module) -> Option<(String, usize)> {
             } else {
                 let tn = module.get_type_name_short(tr.remove_modifier(p.param_type.type_id));
                 pre.push_str(&format!("    {} zz_p{}_{} = {};\n", tn, calls, i, v));
-                statics.push_str(&format!("static {} zz_o{}_{};\n", tn, calls, i));
+                own_statics.push_str(&format!("static {} zz_o{}_{};\n", tn, calls, i));
                 post.push_str(&format!("    zz_o{}_{} = zz_p{}_{};\n", calls, i, calls, i));
                 args.push(format!("zz_p{}_{}", calls, i));
             }
@@ -633,7 +634,11 @@ fn entry_text(module: &ir::Module) -> Option<(String, usize)> {
             continue;
         }
         let rt = tr.remove_modifier(sig.return_type.return_type);
+        if !matches!(tr.get_type_layer(rt), ir::TypeLayer::Void | ir::TypeLayer::Scalar(_) | ir::TypeLayer::Vector(..) | ir::TypeLayer::Struct(_) | ir::TypeLayer::Enum(_)) {
+            continue;
+        }
         let call = format!("{}({})", q, args.join(", "));
+        statics.push_str(&own_statics);
         body.push_str(&pre);
         match tr.get_type_layer(rt) {
             ir::TypeLayer::Void => body.push_str(&format!("    {};\n", call)),
